@@ -1,6 +1,7 @@
 package c15
 
 import (
+	"encoding/base64"
 	"encoding/hex"
 	"encoding/json"
 	"fmt"
@@ -185,13 +186,13 @@ func genSearch(rt *rapid.T) searchCase {
 			continue
 		}
 		seen[t.ID] = true
-		t.Start = rapid.SampledFrom([]int64{0, 1, 1700000000123456789, math.MaxInt64}).Draw(rt, "start")
-		t.DurMs = rapid.SampledFrom([]int64{0, 1, 1500, 9007199254740993}).Draw(rt, "durms")
-		t.DurF = rapid.SampledFrom([]string{"0", "0.000001", "1.5", "1234.567891", "1e21", "9007199254740.993", "5e-324"}).Draw(rt, "durf")
+		t.Start = rapid.SampledFrom([]int64{0, 1, 1700000000123456789, math.MaxInt64, math.MinInt64, 9007199254740993}).Draw(rt, "start")
+		t.DurMs = rapid.SampledFrom([]int64{0, 1, 1500, 9007199254740993, math.MaxInt64, math.MinInt64}).Draw(rt, "durms")
+		t.DurF = rapid.SampledFrom([]string{"0", "0.000001", "1.5", "1234.567891", "1e21", "9007199254740.993", "5e-324", "0.30000000000000004", "1.0000000000000002", "1.7976931348623157e308", "123456.78901234567"}).Draw(rt, "durf")
 		ns := rapid.IntRange(0, 4).Draw(rt, "nspans")
 		for j := 0; j < ns; j++ {
-			sp := sSpan{ID: genHex(rt, 8, "sid"), Ts: rapid.SampledFrom([]int64{0, 5, 1700000000123456789, 1700000000123456790}).Draw(rt, "sts")}
-			sp.Dur = rapid.SampledFrom([]int64{0, 5, 1000000, 1700000000123456789}).Draw(rt, "sdur")
+			sp := sSpan{ID: genHex(rt, 8, "sid"), Ts: rapid.SampledFrom([]int64{0, 5, 1700000000123456789, 1700000000123456790, 9007199254740993, math.MaxInt64, math.MinInt64}).Draw(rt, "sts")}
+			sp.Dur = rapid.SampledFrom([]int64{0, 5, 1000000, 1700000000123456789, 9007199254740993, math.MaxInt64, math.MinInt64}).Draw(rt, "sdur")
 			t.Spans = append(t.Spans, sp)
 		}
 		c.Traces = append(c.Traces, t)
@@ -360,6 +361,43 @@ type tSpan struct {
 	Ts      int64    `json:"ts"`
 	Dur     int64    `json:"dur"`
 	Tags    []KV     `json:"tags"`
+	Attrs   []tAttr  `json:"attrs,omitempty"`    // typed attributes (OTLP payloads only)
+	LongTag int      `json:"long_tag,omitempty"` // length of an extra very long string tag
+}
+
+// tAttr is a typed OTLP attribute value. The trace-by-id JSON branch renders every value
+// into value.stringValue (utils/unmarshal/convert.go SpanToJSONSpan): int64 as decimal
+// digits, double by %v (shortest representation that parses back to the same float64),
+// bool as true/false, bytes as standard base64, array / kvlist as the JSON text of the
+// protobuf wrapper. Exactness is the point: ints digit-exact, doubles bit-exact.
+type tAttr struct {
+	Kind  int      `json:"kind"` // 1 int, 2 double, 3 bool, 4 bytes, 5 array [int, string], 6 kvlist {k: int}
+	I     int64    `json:"i,omitempty"`
+	F     string   `json:"f,omitempty"`
+	B     bool     `json:"b,omitempty"`
+	Bytes evid.Str `json:"bytes,omitempty"`
+	S     evid.Str `json:"s,omitempty"`
+}
+
+var intPool = []int64{0, 1, -1, 1 << 53, 1<<53 + 1, 9007199254740993, -9007199254740993, math.MaxInt64, math.MinInt64, 1700000000123456789, 4611686018427387905}
+
+func genAttr(rt *rapid.T) tAttr {
+	a := tAttr{Kind: rapid.IntRange(1, 6).Draw(rt, "akind")}
+	switch a.Kind {
+	case 1, 5, 6:
+		a.I = rapid.SampledFrom(intPool).Draw(rt, "ai")
+		if rapid.IntRange(0, 3).Draw(rt, "airnd") == 0 {
+			a.I = rapid.Int64().Draw(rt, "ai2")
+		}
+		a.S = GenStr(rt, "as", false)
+	case 2:
+		a.F = genFloat(rt)
+	case 3:
+		a.B = rapid.Bool().Draw(rt, "ab")
+	case 4:
+		a.Bytes = evid.Str(rapid.SliceOfN(rapid.Byte(), 0, 20).Draw(rt, "abytes"))
+	}
+	return a
 }
 
 type traceCase struct {
@@ -379,6 +417,14 @@ func genTrace(rt *rapid.T) traceCase {
 		ts += rapid.SampledFrom([]int64{0, 1, 1000, 1700000000123456789}).Draw(rt, "dts")
 		s.Ts = ts
 		s.Dur = rapid.SampledFrom([]int64{0, 1, 1000000, 123456789012}).Draw(rt, "dur")
+		if p == 2 {
+			for k := rapid.IntRange(0, 4).Draw(rt, "nattrs"); k > 0; k-- {
+				s.Attrs = append(s.Attrs, genAttr(rt))
+			}
+		}
+		if rapid.IntRange(0, 5).Draw(rt, "long") == 0 {
+			s.LongTag = rapid.SampledFrom([]int{1000, 20000, 70000}).Draw(rt, "longlen")
+		}
 		c.Spans = append(c.Spans, s)
 	}
 	return c
@@ -401,6 +447,12 @@ func (s tSpan) payload() (int8, string, error) {
 			}
 			sb.WriteString(enc(kv.K) + ":" + enc(string(kv.V)))
 		}
+		if s.LongTag > 0 {
+			if len(s.Tags) > 0 {
+				sb.WriteByte(',')
+			}
+			sb.WriteString(`"c15.long":` + enc(longString(s.LongTag)))
+		}
 		sb.WriteString(`}}`)
 		return 1, sb.String(), nil
 	default:
@@ -409,12 +461,86 @@ func (s tSpan) payload() (int8, string, error) {
 		for _, kv := range s.Tags {
 			sp.Attributes = append(sp.Attributes, &common.KeyValue{Key: kv.K, Value: &common.AnyValue{Value: &common.AnyValue_StringValue{StringValue: string(kv.V)}}})
 		}
+		if s.LongTag > 0 {
+			sp.Attributes = append(sp.Attributes, &common.KeyValue{Key: "c15.long", Value: &common.AnyValue{Value: &common.AnyValue_StringValue{StringValue: longString(s.LongTag)}}})
+		}
+		for i, a := range s.Attrs {
+			v := &common.AnyValue{}
+			iv := &common.AnyValue{Value: &common.AnyValue_IntValue{IntValue: a.I}}
+			switch a.Kind {
+			case 1:
+				v = iv
+			case 2:
+				f, _ := strconv.ParseFloat(a.F, 64)
+				v.Value = &common.AnyValue_DoubleValue{DoubleValue: f}
+			case 3:
+				v.Value = &common.AnyValue_BoolValue{BoolValue: a.B}
+			case 4:
+				v.Value = &common.AnyValue_BytesValue{BytesValue: []byte(a.Bytes)}
+			case 5:
+				v.Value = &common.AnyValue_ArrayValue{ArrayValue: &common.ArrayValue{Values: []*common.AnyValue{iv, {Value: &common.AnyValue_StringValue{StringValue: string(a.S)}}}}}
+			case 6:
+				v.Value = &common.AnyValue_KvlistValue{KvlistValue: &common.KeyValueList{Values: []*common.KeyValue{{Key: "k", Value: iv}}}}
+			default:
+				continue
+			}
+			sp.Attributes = append(sp.Attributes, &common.KeyValue{Key: fmt.Sprintf("c15.attr%d", i), Value: v})
+		}
 		if s.Service != "" {
 			sp.Attributes = append(sp.Attributes, &common.KeyValue{Key: "service.name", Value: &common.AnyValue{Value: &common.AnyValue_StringValue{StringValue: string(s.Service)}}})
 		}
 		b, err := proto.Marshal(sp)
 		return 2, string(b), err
 	}
+}
+
+func longString(n int) string {
+	const unit = "long value \"with quotes\" and \\ "
+	return strings.Repeat(unit, n/len(unit)+1)[:n]
+}
+
+// hasNumber reports whether the JSON text holds the integer as one exact number token.
+func hasNumber(text string, want int64) bool {
+	dec := json.NewDecoder(strings.NewReader(text))
+	dec.UseNumber()
+	for {
+		tok, err := dec.Token()
+		if err != nil {
+			return false
+		}
+		if n, ok := tok.(json.Number); ok && string(n) == strconv.FormatInt(want, 10) {
+			return true
+		}
+	}
+}
+
+// checkAttr compares the rendered stringValue of a typed attribute.
+func checkAttr(a tAttr, got string) error {
+	switch a.Kind {
+	case 1:
+		if got != strconv.FormatInt(a.I, 10) {
+			return fmt.Errorf("int attribute %d rendered %q", a.I, got)
+		}
+	case 2:
+		want, _ := strconv.ParseFloat(a.F, 64)
+		f, err := strconv.ParseFloat(got, 64)
+		if err != nil || !sameFloat(f, want) {
+			return fmt.Errorf("double attribute %s rendered %q", a.F, got)
+		}
+	case 3:
+		if got != strconv.FormatBool(a.B) {
+			return fmt.Errorf("bool attribute %v rendered %q", a.B, got)
+		}
+	case 4:
+		if got != base64.StdEncoding.EncodeToString([]byte(a.Bytes)) {
+			return fmt.Errorf("bytes attribute %x rendered %q", string(a.Bytes), got)
+		}
+	case 5, 6:
+		if !json.Valid([]byte(got)) || !hasNumber(got, a.I) {
+			return fmt.Errorf("nested attribute holding %d rendered %q", a.I, got)
+		}
+	}
+	return nil
 }
 
 type traceDoc struct {
@@ -466,6 +592,16 @@ func predTrace(c traceCase, o *evid.Obs) error {
 		esc = esc || NeedsEscape(string(s.Name)) || NeedsEscape(string(s.Service)) || labelsNeedEscape(s.Tags)
 		rows = append(rows, []any{string(s.TraceID), string(s.SpanID), "", s.Ts, s.Dur, pt, payload})
 		o.Tag(fmt.Sprintf("payload:%d", s.Payload))
+		for _, at := range s.Attrs {
+			o.Tag(fmt.Sprintf("attr-kind:%d", at.Kind))
+			if (at.Kind == 1 || at.Kind >= 5) && (at.I > 1<<53 || at.I < -(1<<53)) {
+				o.Tag("attr-int-beyond-2^53")
+				esc = true // counts as non-trivial
+			}
+		}
+		if s.LongTag > 0 {
+			o.Tag("long-string-attribute")
+		}
 	}
 	resp, _ := run("/api/traces/0123456789abcdef0123456789abcdef", func(i int, q string) *fakesql.Result { return fakesql.Rows(nil, rows...) })
 	o.Tag("rows:" + bucket(len(c.Spans)))
@@ -517,6 +653,17 @@ func predTrace(c traceCase, o *evid.Obs) error {
 					}
 					if v, ok := attrs[Norm(kv.K)]; !ok || v != Norm(string(kv.V)) {
 						why = fmt.Sprintf("attribute %q = %q (present %v), scripted %q", kv.K, v, ok, Norm(string(kv.V)))
+					}
+				}
+				if s.LongTag > 0 && attrs["c15.long"] != longString(s.LongTag) {
+					why = fmt.Sprintf("long attribute of %d bytes rendered as %d bytes", s.LongTag, len(attrs["c15.long"]))
+				}
+				for i, at := range s.Attrs {
+					v, ok := attrs[fmt.Sprintf("c15.attr%d", i)]
+					if !ok {
+						why = fmt.Sprintf("typed attribute %d missing", i)
+					} else if err := checkAttr(at, v); err != nil {
+						why = err.Error()
 					}
 				}
 			}
